@@ -198,6 +198,41 @@ def vh(args, timeout=3600, name="vh"):
     return r
 
 
+def vh_par(args, reps, seed, name="vh", procs=8, timeout=7200, reps_flag="--reps"):
+    """The thorough tiers: the same driver in `procs` processes, the repetitions divided between them, every process with its
+    own seed (the transport hook and every counter are per process). Reports are merged."""
+    from concurrent.futures import ThreadPoolExecutor
+    reps = int(reps)
+    procs = max(1, min(procs, reps))
+    share = [reps // procs + (1 if i < reps % procs else 0) for i in range(procs)]
+    def one(i):
+        return vh(list(args) + [reps_flag, share[i], "--seed", int(seed) * 1000 + i if procs > 1 else seed],
+                  timeout=timeout, name=f"{name}_p{i}")
+    with ThreadPoolExecutor(procs) as ex:
+        rs = list(ex.map(one, range(procs)))
+    for r in rs:
+        if "crashed" in r:
+            return r
+    m = dict(rs[0])
+    for r in rs[1:]:
+        for k in ("evaluations", "distinct", "drift_count"):
+            m[k] = m.get(k, 0) + r.get(k, 0)
+        for k in ("samples", "violations", "drifts"):
+            m[k] = m.get(k, []) + r.get(k, [])
+        for sig, n in r.get("violation_sigs", {}).items():
+            m.setdefault("violation_sigs", {})[sig] = m.get("violation_sigs", {}).get(sig, 0) + n
+    m["wall_s"] = max(r.get("wall_s", 0) for r in rs)
+    m["processes"] = procs
+    return m
+
+
+def vhr(args, reps, seed, tier, name="vh", timeout=7200):
+    """quick: one process; thorough: the repetitions spread over 8 processes"""
+    if tier != "thorough":
+        return vh(list(args) + ["--reps", reps, "--seed", seed], name=name, timeout=timeout)
+    return vh_par(args, reps, seed, name=name, timeout=timeout)
+
+
 # ----------------------------------------------------------------------------- findings / verdict
 
 def load_findings():
